@@ -2,8 +2,10 @@ SPECIFICATION Spec
 CONSTANTS
   Cons <- BindCons
   Terms = {"semi"}
-  MaxE = 2
-  MaxS = 2
-  MaxX = 4
-  MaxStack = 3
+  MaxE = 1
+  MaxS = 1
+  MaxX = 2
+  MaxP = 0
+  MaxL = 0
+  MaxTop = 1
 CHECK_DEADLOCK FALSE
